@@ -96,6 +96,17 @@ def main():
                 u = [[None, "meter", abs(n) * 2]]
                 cases.append({"op": "root", "l": {"t": "qty", "m": [k, str(base), "1"], "u": u}, "r": n})
                 cases.append({"op": "pow", "l": {"t": "qty", "m": [k, str(base), "1"], "u": [[None, "second", 1]]}, "r": n})
+    # roots of products of different units of one dimension (metre x foot): the factor exponents are not divisible although the
+    # dimension's are, so the root is refused -- or, if anything is returned, it has the dimension's root
+    for ua, ub in (("meter", "foot"), ("hour", "second"), ("gram", "pound"), ("meter", "inch")):
+        for spec, n in (([[None, ua, 1], [None, ub, 1]], 2), ([[None, ua, 3], [None, ub, 1]], 2), ([[None, ua, 1], [None, ub, 1]], -2), ([[None, ua, 2], [None, ub, 1]], 3)):
+            for k in ("int", "float", "dec"):
+                cases.append({"op": "root", "l": {"t": "qty", "m": MAGS[k][0] if k != "int" else ["int", "16", "1"], "u": spec}, "r": n})
+    # sums and differences on the temperature scales stay on the left operand's scale
+    for ua, ub in (("celsius", "celsius"), ("celsius", "kelvin"), ("fahrenheit", "fahrenheit"), ("kelvin", "celsius"), ("fahrenheit", "Rankine"), ("celsius", "fahrenheit")):
+        for op in ("add", "sub"):
+            for k in ("int", "float", "dec"):
+                cases.append({"op": op, "l": {"t": "qty", "m": [k, "30", "1"], "u": [[None, ua, 1]]}, "r": {"t": "qty", "m": [k, "20", "1"], "u": [[None, ub, 1]]}})
     # renderings before arithmetic: every pair of sample units, so that a rendering that interns a wrong unit poisons later results
     prel = [(a, b) for i, a in enumerate(UNITS) for b in UNITS[i:] if len(a) == 1 and len(b) == 1 and a[0][0] is None and b[0][0] is None]
     dl = impl("dimlaws_worker.py", {"define": [["vf currency", "VFC"]]})
@@ -156,7 +167,14 @@ def main():
                     ratio = S.ratio({"p": [0, 0], "f": ua["f"]}, {"p": [0, 0], "f": ub["f"]})
                     if ratio is not None: pairs[k] = (ua, ub, ratio)
     convtbl = qgen.conv_table(pairs.values())
-    bad = qgen.run_shards(c, "C03", cases, recs, convtbl)
+    # offsets between temperature scales are not part of the dispatch model's conversion oracle (ratios only): those cases are judged on the
+    # implementation above and left out of the kernel comparison
+    OFFSET_SCALES = ("celsius", "fahrenheit")
+    def offset_case(cs):
+        return any(isinstance(cs.get(k), dict) and any(x[1] in OFFSET_SCALES for x in cs[k].get("u", [])) for k in ("l", "r"))
+    mi = [i for i, cs in enumerate(cases) if not (cs["op"] in ("add", "sub") and offset_case(cs) and cs["l"].get("u") != cs["r"].get("u"))]
+    bad = qgen.run_shards(c, "C03", [cases[i] for i in mi], [recs[i] for i in mi], convtbl)
+    bad = [mi[j] for j in bad]
     for i in bad[:5]:
         c.cov.setdefault("model_impl_mismatches", []).append({"case": cases[i], "impl": recs[i]["res"]})
     # search step: on the cases where model and implementation disagree, evaluate the property directly
